@@ -2,10 +2,11 @@
     (ModRingInst.v) + the second 64-bit instance (ModRingConvInst.v: multi-word rings on word lists with the real
     kernels of C01 / C02, one- and two-word rings with num-modular as transcribed) + (round 4) inverse / division of the
     multi-word ring with the extended gcd of the source (gcd_ext_word / gcd_ext_dword transcribed, C12's as-is Lehmer
-    gcd_ext_in_place; ModRingLehmerInst.v) *)
+    gcd_ext_in_place; ModRingLehmerInst.v) + (round 5) all of them with the word size as a parameter (ModRingWInst.v: g<name> w),
+    which is what the driver calls, at the word size the harness reports (wb=64 / wb=32) *)
 Require Import FastZ.
 From Dashu Require Import Base.Prelude Int.ModRingSpec Int.ModRingPowModel Int.ModRingModel Int.ModRingInst
-  Int.ModRingWords Int.ModRingConv Int.ModRingConvInst Int.GrlLehmer Int.ModRingLehmer Int.ModRingLehmerInst Int.ModRingReducerWords Int.ModRingClone.
+  Int.ModRingWords Int.ModRingConv Int.ModRingConvInst Int.GrlLehmer Int.ModRingLehmer Int.ModRingLehmerInst Int.ModRingReducerWords Int.ModRingClone Int.ModRingWInst.
 
 Extraction "model.ml"
   reduce_spec add_spec sub_spec mul_spec neg_spec dbl_spec sqr_spec powm inv_spec inv_ok div_spec
@@ -13,4 +14,7 @@ Extraction "model.ml"
   run_reduce run_bin run_un run_pow run_pow_prefix run_inv run_eq
   run_rd run_rd_inv run_rd_check run_rd_modulus i_new r_shift r_kind
   hrun_reduce hrun_bin hrun_un hrun_pow hrun_inv hrun_eq hrun_transform
-  hrun_inv_src hrun_div_src hrun_gcd_probe hrun_rd_lin run_clone_from.
+  hrun_inv_src hrun_div_src hrun_gcd_probe hrun_rd_lin run_clone_from
+  grun_reduce grun_bin grun_un grun_pow grun_inv grun_eq grun_rd grun_rd_inv grun_rd_check grd_check_spec grun_rd_modulus gi_new
+  ghrun_reduce ghrun_bin ghrun_un ghrun_pow ghrun_inv ghrun_eq ghrun_transform
+  ghrun_inv_src ghrun_div_src ghrun_gcd_probe ghrun_rd_lin grun_clone_from.
